@@ -80,6 +80,7 @@ func extract(ctx context.Context, rs io.ReadSeeker, scanFunc func() osm.Scanner,
 		for i := 0; i < nprocs; i++ {
 			eg.Go(func() error {
 				for obj := range objChan {
+					verifHook(verifWorkerRecv, obj)
 					switch objType := obj.(type) {
 					case *osm.Node:
 						o.processNode(obj.(*osm.Node), keep, keepTags)
@@ -99,6 +100,7 @@ func extract(ctx context.Context, rs io.ReadSeeker, scanFunc func() osm.Scanner,
 					default:
 						return fmt.Errorf("unknown type %T", objType)
 					}
+					verifHook(verifWorkerDone, obj)
 				}
 				return nil
 			})
@@ -109,8 +111,10 @@ func extract(ctx context.Context, rs io.ReadSeeker, scanFunc func() osm.Scanner,
 		}
 		scanner := scanFunc()
 		for scanner.Scan() {
+			verifHook(verifFeed, scanner.Object())
 			objChan <- scanner.Object()
 		}
+		verifHook(verifClose, nil)
 		close(objChan)
 		if err := scanner.Err(); err != nil {
 			return nil, err
